@@ -10,7 +10,7 @@ META = {
     'modules': ['zonal'],
     'functions': ['xrspatial.zonal.regions', 'xrspatial.zonal._area_connectivity'],
     'bounds': {'quick': 'rasters 1x4, 4x1, 2x3, 3x2 with every cell a symbolic value in {-1, 0, 2} or NaN (every equality / NaN pattern is a solver-decided path), neighbourhood 4 and 8; '
-                        '3x3 with NaN-free cells for neighbourhood 4 and 8 under the path budget; the 4x6 "three labels meet" layout family with 4 symbolic cells; int32 rasters 2x2',
+                        '3x3 with NaN-free cells for neighbourhood 4 and 8 under the path budget; the 4x6 "three labels meet" layout family with 4 symbolic cells; int32 rasters 2x2; NOT symbolic: every one of the 4096 layouts of a 4x3 raster over {-1, 2} for both neighbourhoods (concrete enumeration; the symbolic 4x3 run is in the thorough tier)',
                'thorough': '3x3 with NaN exhaustively, 3x4 and 2x5 under budget'},
     'stubs': ['numba.jit = identity'],
     'outside': ['non-integer values whose isclose tolerance is not transitive', 'rasters larger than the bound'],
@@ -29,6 +29,14 @@ def jobs(tier, seed):
             out.append({'name': 'regions-%dx%d-n%d' % (shp[0], shp[1], n), 'shape': shp, 'n': n, 'nan': True})
     for n in (4, 8):
         out.append({'name': 'regions-3x3-n%d-nonan' % n, 'shape': [3, 3], 'n': n, 'nan': False, 'domain': [0, 1]})
+    # four rows: the smallest height at which a relabelling sweep has rows "two or more above" the merge cell (tall U / comb shapes)
+    # (symbolic 4x3 needs ~15 CPU-minutes per neighbourhood: thorough tier; the quick tier enumerates the 4096 binary layouts concretely,
+    # values {-1, 2} so that the relative tolerance sees a negative value)
+    for n in (4, 8):
+        for lo in range(0, 4096, 512):
+            out.append({'name': 'regions-4x3-n%d-layouts-%04d' % (n, lo), 'shape': [4, 3], 'n': n, 'nan': False, 'layouts': [lo, lo + 512], 'values': [-1.0, 2.0]})
+        if tier != 'quick':
+            out.append({'name': 'regions-4x3-n%d-binary' % n, 'shape': [4, 3], 'n': n, 'nan': False, 'domain': [0, 1]})
     for sym in ([[1, 2], [2, 3], [3, 1], [3, 2]], [[1, 0], [2, 0], [1, 4], [2, 3]]):
         out.append({'name': 'regions-4x6-three-labels-meet-%d%d' % (sym[0][0], sym[0][1]), 'shape': [4, 6], 'n': 8, 'nan': False, 'base': MEET, 'sym': sym, 'domain': [0, 1]})
     for n in (4, 8):
@@ -45,6 +53,13 @@ def body(ctx, job):
     sc.set_axioms()
     h, w = job['shape']
     n = job['n']
+    if job.get('layouts'):
+        lo, hi = job['layouts']
+        a, b = job['values']
+        for bits in range(lo, hi):
+            data = symnp.asarray([[(b if (bits >> (y * w + x)) & 1 else a) for x in range(w)] for y in range(h)], 'float64').copy()
+            _run(ctx, job, data, h, w, n)
+        return
     if job.get('base'):
         data = symnp.asarray(job['base'], 'float64').copy()
         for (y, x) in job['sym']:
@@ -55,6 +70,10 @@ def body(ctx, job):
     for v in data.flat_values():
         if sc.is_sym(v):
             ctx.assume(Or(isnan(v), *[v == k for k in job.get('domain', [-1, 0, 2])]))
+    _run(ctx, job, data, h, w, n)
+
+
+def _run(ctx, job, data, h, w, n):
     ys = coords_affine(h, 50.0, -10.0)
     xs = coords_affine(w, 7.0, 3.0)
     agg = raster(data, ys=ys, xs=xs, name='r', attrs={'res': (3.0, 10.0), 'units': 'km'})
